@@ -2,8 +2,6 @@ package padding
 
 import (
 	"errors"
-
-	"github.com/emmansun/gmsm/internal/byteorder"
 )
 
 // The padded data comprises (in this order):
@@ -23,54 +21,61 @@ func (pad iso9797M3Padding) BlockSize() int {
 
 func (pad iso9797M3Padding) Pad(src []byte) []byte {
 	srcLen := len(src)
-	overhead := pad.BlockSize() - srcLen%pad.BlockSize()
-	if overhead == pad.BlockSize() && srcLen > 0 {
+	blockSize := pad.BlockSize()
+	overhead := blockSize - srcLen%blockSize
+	if overhead == blockSize && srcLen > 0 {
 		overhead = 0
 	}
 
-	var head, tail []byte
-	total := srcLen + overhead + pad.BlockSize()
+	total := srcLen + overhead + blockSize
 
 	if total <= 0 {
 		panic("padding: total length overflow")
 	}
 
-	if cap(src) >= total {
-		head = src[:total]
-	} else {
-		head = make([]byte, total)
-	}
-
-	tail = head[srcLen+pad.BlockSize():]
-	clear(head[:pad.BlockSize()])
-	copy(head[pad.BlockSize():], src)
-	if overhead > 0 {
-		clear(tail)
-	}
-	byteorder.BEPutUint64(head[8:], uint64(srcLen*8))
+	// The length block is placed in front of the data, so the result can never
+	// be an extension of src: always use a new buffer and leave src untouched.
+	head := make([]byte, total)
+	copy(head[blockSize:], src)
+	putM3Length(head[:blockSize], uint64(srcLen)*8)
 	return head
+}
+
+// putM3Length stores v right-aligned (big-endian) in the length block b.
+func putM3Length(b []byte, v uint64) {
+	for i := len(b) - 1; i >= 0 && v > 0; i-- {
+		b[i] = byte(v)
+		v >>= 8
+	}
 }
 
 // Unpad decrypted plaintext, non-constant-time
 func (pad iso9797M3Padding) Unpad(src []byte) ([]byte, error) {
 	srcLen := len(src)
-	if srcLen < 2*pad.BlockSize() || srcLen%pad.BlockSize() != 0 {
+	blockSize := pad.BlockSize()
+	if srcLen < 2*blockSize || srcLen%blockSize != 0 {
 		return nil, errors.New("padding: invalid src length")
 	}
-	for _, b := range src[:8] {
-		if b != 0 {
-			return nil, errors.New("padding: invalid padding header")
+	// the length block is a big-endian number of blockSize bytes
+	var bits uint64
+	for i, b := range src[:blockSize] {
+		if i < blockSize-8 {
+			if b != 0 {
+				return nil, errors.New("padding: invalid padding header")
+			}
+			continue
 		}
+		bits = bits<<8 | uint64(b)
 	}
-	dstLen := int(byteorder.BEUint64(src[8:pad.BlockSize()])/8)
-	if dstLen < 0 || dstLen > srcLen-pad.BlockSize() {
+	if bits/8 > uint64(srcLen-blockSize) {
 		return nil, errors.New("padding: invalid padding header")
 	}
-	padded := src[pad.BlockSize()+dstLen:]
+	dstLen := int(bits / 8)
+	padded := src[blockSize+dstLen:]
 	for _, b := range padded {
 		if b != 0 {
 			return nil, errors.New("padding: invalid padding bytes")
 		}
 	}
-	return src[pad.BlockSize() : pad.BlockSize()+dstLen], nil
+	return src[blockSize : blockSize+dstLen], nil
 }
